@@ -100,6 +100,12 @@ CHECKS = {
                     'selectors; the solver contributes exhaustive coverage of the combinations in the bound (the per-argument split is '
                     'decided symbolically in C19).',
             'technique': SYM + ' (selector-driven) of generate-then-parse'},
+    'C13': {'text': 'One operation of the real Bus (RequestName with a SYMBOLIC u32 flags word, ReleaseName, disconnect, lookups) from an '
+                    'arbitrary valid name table (queue of up to 3 of 4 peers, symbolic allow-replacement bits, every caller position) is '
+                    'compared with a reference name table - reply code, owner/queue, NameAcquired/NameLost recipients, invariant; plus '
+                    'every operation history up to the bound from the empty table through real method-call messages.',
+            'ref': 'DESIGN.md 2/C13', 'note': NOTE + ' Peers are stand-ins for BusProtocol; histories are selector-driven (exhaustive within the bound).',
+            'technique': SYM + '; inductive one-step check from an arbitrary table against a reference model, plus exhaustive bounded histories'},
 }
 _TODO = 'check not built yet in this revision (planned, see DESIGN.md section 2)'
 NOT_APPLICABLE = {('C%02d' % i): _TODO for i in range(1, 21)}
